@@ -232,8 +232,7 @@ def rule_shapes(chk, prog):
 IMPL_METHODS = ('transform', 'inverse_transform', 'longitudinal_derivative')
 
 
-def rule_vertical_padding(chk, prog):
-  rule = 'C07.3-vertical-pad-crop'
+def rule_vertical_padding(chk, prog, rule='C07.3-vertical-pad-crop'):
   n = 0
   # who-may-use, on values (not on syntax): a reference to an implementation transform may only occur as the function
   # handed to _with_vertical_padding together with the same grid's mesh — whether written inline, through a local
@@ -286,7 +285,7 @@ def rule_vertical_padding(chk, prog):
   pad = Term('call', Term('func', f'dinosaur.{SH}._vertical_pad'), (x, S('mesh')), ())
   want = Term('call', Term('func', f'dinosaur.{SH}._vertical_crop'), (Term('call', S('f'), (Term('sub', pad, sym.const(0)),), ()), Term('sub', pad, sym.const(1))), ())
   chk.check(g == want, rule, f'{SH}._with_vertical_padding: crop(f(pad(x)[0]), pad(x)[1]) — the crop removes exactly the padding that was added to the same input', sym.show(g), (f.file, f.lineno), sym.show(want), sym.show(g))
-  ev2 = sym.Evaluator(prog, sym.Options(model_vertical_padding=False, opaque={f'{SH}._round_to_multiple'}))
+  ev2 = sym.Evaluator(prog, sym.Options(model_vertical_padding=False, opaque={f'{SH}._round_to_multiple', f'{JU}.pad_in_dim'}))
   f = prog.func(f'{SH}._vertical_pad')
   v, _, _ = ev2.run(f)
   site, loc = f'{SH}._vertical_pad', (f.file, f.lineno)
@@ -299,6 +298,10 @@ def rule_vertical_padding(chk, prog):
     rt = A.conv(Term('call', Term('func', f'dinosaur.{SH}._round_to_multiple'), (Term('sub', Term('attr', fld, 'shape'), sym.const(0)), Term('sub', Term('attr', mesh, 'shape'), sym.const('z'))), ()))
     chk.check(alg.equal(A.conv(z), rt - n0), rule, f'{site}: padding = round_to_multiple(levels, mesh z) − levels', sym.show(z)[:160], loc)
     okp = match.is_ext_call(padded, 'pad') and padded.a[1][0] == fld and padded.a[1][1] == Term('list', Term('tuple', sym.const(0), z), Term('tuple', sym.const(0), sym.const(0)), Term('tuple', sym.const(0), sym.const(0))) and not padded.a[2]
+    if not okp and padded.k == 'call' and util.callee_name(padded) == 'pad_in_dim':
+      # the repo's own helper: pad_in_dim(x, (before, after), axis)
+      b = ev2.bind_args(prog.func(f'{JU}.pad_in_dim'), list(padded.a[1]), list(padded.a[2]), None, None)
+      okp = b is not None and b.get('x') == fld and b.get('pad_width') == Term('tuple', sym.const(0), z) and b.get('axis') == sym.const(0)
     chk.check(okp, rule, f'{site}: zero-pads only the tail of the level axis', sym.show(padded)[:200], loc)
   f = prog.func(f'{SH}._vertical_crop')
   v, _, _ = ev2.run(f)
@@ -767,7 +770,32 @@ def rule_shard_offset(chk, prog):
   chk.at_least(rule, 2)
 
 
+def rule_sharded_implicit(chk, prog):
+  """C07.11: on a mesh with z > 1 (and always in the blockwise inverse) the temperature coupling is applied in its cumulative-sum form,
+  whose sums run through the sharded cumsum; it must be the same operator as the dense −H·div used without a mesh. The form rule is the one
+  of C03.3b (instances re-filed here)."""
+  from sa import report
+  from rules import c03
+  rule = 'C07.11-sharded-implicit-form-equals-dense'
+  probe = report.Check('C07-probe')
+  c03.rule_sparse_dense(probe, prog)
+  keep = [i for i in probe.instances]
+  if len(keep) < 4:
+    raise AnalysisError('C07: the sparse-form instances of C03.3b were not produced')
+  for i in keep:
+    i = dict(i, rule=rule)
+    chk.instances.append(i)
+    if i['status'] != 'holds':
+      chk.violations.append(i)
+  chk.at_least(rule, 4)
+
+
 def run(chk, prog, tier):
+  rule_sharded_implicit(chk, prog)
+  # sibling: the clip mask counts from the resolved truncation, not from the end of the padded axis (every n, every fast path) — C02.5's mask rule
+  from rules import c02 as _c02
+  _c02.clip_mask_rule(chk, prog, 'C07.12-clip-mask-padding-aware')
+  chk.at_least('C07.12-clip-mask-padding-aware', 3)
   from rules import c01 as _c01
   _c01.rule_shared_state(chk, prog, rule='C07.9-shared-arrays-never-updated-in-place')
   rule_shard_offset(chk, prog)
